@@ -209,6 +209,18 @@ func cowCase(c *Ctx, id, stack string, items []string, prop string) {
 			names := make([]string, len(all))
 			for k, x := range all {
 				names[k] = x.Name()
+				// a listed entry describes what the union shows under that name (overlay entry wins)
+				cp := d + "/" + x.Name()
+				if d == "/" {
+					cp = "/" + x.Name()
+				}
+				if st, e2 := in.Top.Fs.Stat(cp); e2 == nil && (st.IsDir() != x.IsDir() || (!st.IsDir() && st.Size() != x.Size())) {
+					failed = true
+					c.Oracle("FAIL %s listing:entry-differs-from-stat dir %s entry %s after step %d: listed dir=%v size=%d, Stat dir=%v size=%d", id, d, x.Name(), i, x.IsDir(), x.Size(), st.IsDir(), st.Size())
+				}
+			}
+			if failed {
+				break
 			}
 			if err != nil || strings.Join(names, ",") != strings.Join(want, ",") {
 				failed = true
